@@ -1,3 +1,109 @@
-import Toodee.Spec.Inv
+import Toodee.Spec.History
+import Toodee.Spec.IterAbs
+import Toodee.Proofs.HistoryLemmas
+/-
+  C01 — Array dimensions always agree with its contents.
+
+  After **any** history of safe public operations on an owned array — construction, insert/remove/push/pop of rows and
+  columns with any iterator script and any drain consumption, clear, swap_dimensions, capacity calls, the in-place algorithms,
+  and calls rejected with a panic — in both build modes:
+  * the shape invariant holds (`data.len() = num_cols*num_rows`, both dimensions zero or neither);
+  * `rows()`, `cells()` and every `col(c)` report lengths `num_rows`, `num_cols*num_rows`, `num_rows`;
+  * for the structural operations and the swap / fill / flip primitives the array's rows-of-cells (`TD.grid`) are those of the
+    plain model `gstep` driven by the same operation (the remaining in-place algorithms are specified cell-wise by C13–C17).
+  This is the composition of the per-operation theorems C06, C07, C11, C13–C17.
+-/
 namespace Toodee
+variable {α : Type}
+
+/-- one step preserves the shape invariant -/
+theorem C01_step_inv (m : Mode) (t : TD α) (h : t.Inv) (op : HOp α) (hop : op.spareOk) :
+    (hstep m t op).Inv := by
+  cases op with
+  | fromVec c r v => exact hs_inv_fromVec t h c r v
+  | insertRow i it spare => exact hs_inv_insertRow m t h i it spare hop
+  | insertCol i it spare => exact hs_inv_insertCol m t h i it spare hop
+  | removeRow i => exact hs_inv_removeRow m t h i
+  | removeCol i => exact hs_inv_removeCol m t h i
+  | popRow =>
+    rw [hs_popRow m t h]
+    split
+    · exact h
+    · exact hs_inv_removeRow m t h _
+  | popCol =>
+    rw [hs_popCol m t h]
+    split
+    · exact h
+    · exact hs_inv_removeCol m t h _
+  | clear => exact hs_inv_clear t
+  | swapDimensions => exact hs_inv_swapDimensions t h
+  | capacityCall => exact h
+  | fill x => exact hs_inv_fill t h x
+  | swap c1 r1 c2 r2 => exact hs_inv_swap m t h c1 r1 c2 r2
+  | swapRows r1 r2 => exact hs_inv_swapRows m t h r1 r2
+  | swapCols c1 c2 => exact hs_inv_swapCols t h c1 c2
+  | copyFromSlice src => exact hs_inv_copyFromSlice t h src
+  | translate mc mr => exact hs_inv_translate m t h mc mr
+  | flipRows => exact hs_inv_flipRows m t h
+  | flipCols => exact hs_inv_flipCols t h
+  | sortByRow le row => exact hs_inv_sortByRow m t h le row
+  | sortByCol le col => exact hs_inv_sortByCol m t h le col
+
+/-- every reachable array satisfies the shape invariant -/
+theorem C01_history_inv (m : Mode) (t : TD α) (h : t.Inv) (ops : List (HOp α)) (hops : ∀ op ∈ ops, op.spareOk) :
+    (hrun m t ops).Inv := by
+  induction ops generalizing t with
+  | nil => exact h
+  | cons op ops ih =>
+    show (hrun m (hstep m t op) ops).Inv
+    exact ih _ (C01_step_inv m t h op (hops op (List.mem_cons_self ..)))
+      (fun o ho => hops o (List.mem_cons_of_mem _ ho))
+
+/-- … in particular starting from `default()` / `with_capacity(n)` -/
+theorem C01_history_from_default (m : Mode) (ops : List (HOp α)) (hops : ∀ op ∈ ops, op.spareOk) :
+    (hrun m (TD.default : TD α) ops).Inv :=
+  C01_history_inv m _ C20_default.1 ops hops
+
+/-- the lengths reported by the three iterator families agree with the dimensions -/
+theorem C01_lens (m : Mode) (t : TD α) (h : t.Inv) :
+    t.rows.sizeHint m = .ok t.numRows ∧
+    (Flat.new t.rows).sizeHint m = .ok (t.numCols * t.numRows) ∧
+    ∀ c, c < t.numCols → ∃ it, t.col m c = .ok it ∧ it.sizeHint m = .ok t.numRows := by
+  refine ⟨C08_len m _ _ _ (C08_rows_owned t h).1, ?_, ?_⟩
+  · obtain ⟨hwf, habs, _⟩ := C10_cells_owned t h
+    rw [C10_len m _ _ _ hwf, habs, List.length_range, h.len]
+  · intro c hc
+    have hcw := h.cols_word
+    obtain ⟨it, e, hwf, _⟩ := (C09_col_owned m t h c (by omega)).1 hc
+    exact ⟨it, e, C09_len m it _ _ hwf⟩
+
+/-- one step agrees with the rows-of-cells model wherever that model prescribes the result -/
+theorem C01_step_refines (m : Mode) (t : TD α) (h : t.Inv) (op : HOp α) (hop : op.spareOk) (hfit : op.fits t.data.length)
+    (g' : List (List α)) (hg : gstep t.grid op = some g') :
+    (hstep m t op).grid = g' := by
+  have fin : ∀ x : List (List α), gstep t.grid op = some x → x = g' := fun x hx => by
+    rw [hx] at hg
+    exact Option.some.inj hg
+  cases op with
+  | insertRow i it spare => exact hs_ref_insertRow m t h i it spare hop hfit g' hg
+  | insertCol i it spare => exact hs_ref_insertCol m t h i it spare hop hfit g' hg
+  | removeRow i => exact fin _ (hs_ref_removeRow m t h i)
+  | removeCol i => exact fin _ (hs_ref_removeCol m t h i)
+  | popRow => exact fin _ (hs_ref_popRow m t h)
+  | popCol => exact fin _ (hs_ref_popCol m t h)
+  | clear => exact fin _ (hs_ref_clear m t)
+  | capacityCall => exact fin _ rfl
+  | fill x => exact fin _ (hs_ref_fill m t h x)
+  | swapRows r1 r2 => exact fin _ (hs_ref_swapRows m t h r1 r2)
+  | swapCols c1 c2 => exact fin _ (hs_ref_swapCols m t h c1 c2)
+  | flipRows => exact fin _ (hs_ref_flipRows m t h)
+  | flipCols => exact fin _ (hs_ref_flipCols m t h)
+  | fromVec c r v => cases hg
+  | swapDimensions => cases hg
+  | swap c1 r1 c2 r2 => cases hg
+  | copyFromSlice src => cases hg
+  | translate mc mr => cases hg
+  | sortByRow le row => cases hg
+  | sortByCol le col => cases hg
+
 end Toodee
